@@ -714,8 +714,8 @@ Proof.
     destruct (report_number_some pf s (jp_lit p) (jp_isdbl p) (Hnum Ec)) as (s1 & e & ->).
     destruct (jpop_ok p Hst Her) as (_ & _ & Hl & Hlit).
     destruct (jisnil e); cbn [negb].
-    + destruct (_ && _); eexists _, _, _; (split; [reflexivity|]); rewrite Hlit; lia.
-    + eexists _, _, _; (split; [reflexivity|]); lia.
+    + destruct (_ && _); eexists _, _, _; (split; [reflexivity|]); cbn [jset_lit jp_lit jp_states length]; lia.
+    + eexists _, _, _; (split; [reflexivity|]); cbn [jset_lit jp_lit jp_states length]; lia.
   - cbn [negb]. destruct (_ && _); eexists _, _, _; (split; [reflexivity|]); lia.
 Qed.
 
